@@ -46,6 +46,41 @@ fn one(line: &str) -> String {
     format!("{id} EXIT {res} after={}\n", targets::call_u64("r0", 7))
 }
 
+/// `<id> overlap <site> <ka> <kb> <delay-ms>`: two lifetimes on two threads built by the SAME fake!(.., times: N) line.  Thread B starts
+/// its lifetime (new injector, will_execute of the site) while A's is alive and has made none of its ka calls yet; whatever B can do
+/// before A lets go, A's calls belong to A's installation and B's to B's.
+fn overlap(line: &str) -> String {
+    let t: Vec<&str> = line.split_whitespace().collect();
+    let (id, site, ka, kb, delay) = (t[0].to_string(), t[2].parse::<u32>().unwrap(), t[3].parse::<usize>().unwrap(), t[4].parse::<usize>().unwrap(), t[5].parse::<u64>().unwrap());
+    fn lifetime(site: u32, k: usize, started: &AtomicUsize, hold_ms: u64) -> String {
+        let mut calls = (0usize, 0usize, 0usize);
+        let exit = catch_unwind(AssertUnwindSafe(|| {
+            let mut inj = InjectorPP::new();
+            let tf: fn(u64) -> u64 = targets::r0;
+            inj.when_called(injectorpp::func!(fn (tf)(u64) -> u64)).will_execute(hist::site(site));
+            started.fetch_add(1, Ordering::SeqCst);
+            if hold_ms > 0 { std::thread::sleep(std::time::Duration::from_millis(hold_ms)); }
+            for _ in 0..k {
+                match catch_unwind(|| targets::call_u64("r0", 7)) {
+                    Ok(v) => { if v == 4000 + site as u64 { calls.0 += 1 } else { calls.2 += 1 } }
+                    Err(e) => if util::classify(&util::panic_msg(&e)) == "overcalled" { calls.1 += 1 } else { calls.2 += 1 },
+                }
+            }
+            drop(inj);
+        }));
+        let ex = match &exit { Ok(()) => "normal".to_string(), Err(e) => { let msg = util::panic_msg(e);
+            if util::classify(&msg) == "count" { format!("panic:count:{}", msg.split(|ch: char| !ch.is_ascii_digit()).filter(|x| !x.is_empty()).collect::<Vec<_>>().join(":")) } else { "panic:other".into() } } };
+        format!("admitted={},overcalled={},other={},exit={}", calls.0, calls.1, calls.2, ex)
+    }
+    let started = Arc::new(AtomicUsize::new(0));
+    let (sa, sb) = (started.clone(), started.clone());
+    let a = std::thread::spawn(move || lifetime(site, ka, &sa, delay));
+    while started.load(Ordering::SeqCst) == 0 { std::hint::spin_loop(); }          // A's fake is installed, none of its calls made
+    let b = std::thread::spawn(move || lifetime(site, kb, &sb, 0));
+    let (ra, rb) = (a.join().unwrap(), b.join().unwrap());
+    format!("{id} OVERLAP a={ra} b={rb}\n{id} EXIT - after={}\n", targets::call_u64("r0", 7))
+}
+
 pub fn main(_args: &[String]) {
     std::panic::set_hook(Box::new(|_| {}));
     let stdin = std::io::stdin();
@@ -54,7 +89,7 @@ pub fn main(_args: &[String]) {
         let l = line.trim().to_string();
         if l.is_empty() { continue; }
         let id = l.split_whitespace().next().unwrap().to_string();
-        let (st, o) = util::fork_run(|| one(&l));
+        let (st, o) = util::fork_run(|| if l.split_whitespace().nth(1) == Some("overlap") { overlap(&l) } else { one(&l) });
         util::emit(&o);
         util::emit(&format!("{id} CHILD {st}\n"));
     }
